@@ -6,13 +6,24 @@
 #include "st_stdio.h"
 #include "st_iostream.h"
 using ST::string;
+#ifdef VP_NATIVE_REAL
+// native replay of extraction from char16_t / char32_t streams: libstdc++ has no std::ctype<char16_t/char32_t>, so its own basic_string extraction cannot
+// run on such a stream (bad_cast in the sentry).  The stream side is replaced by the same environment the solver sees -- "the extraction yields the token" --
+// through explicit specialisations declared before ST's operator>> is instantiated; ST's operator>> itself is the real one.
+static const void *vp_nat_token; static size_t vp_nat_token_n;
+namespace std {
+template <> basic_istream<char16_t> &operator>>(basic_istream<char16_t> &is, basic_string<char16_t> &s) { s.assign((const char16_t *)vp_nat_token, vp_nat_token_n); return is; }
+template <> basic_istream<char32_t> &operator>>(basic_istream<char32_t> &is, basic_string<char32_t> &s) { s.assign((const char32_t *)vp_nat_token, vp_nat_token_n); return is; }
+}
+#endif
 typedef std::char_traits<char> T8; typedef std::char_traits<wchar_t> TW; typedef std::char_traits<char16_t> T16; typedef std::char_traits<char32_t> T32;
 VP_FN(void, vp_stdio_append, (FILE *f, const char *d, size_t n)) { _ST_PRIVATE::stdio_format_writer w("", f); w.append(d, n); } VP_END(void)
 VP_FN(void, vp_stdio_append_char, (FILE *f, int ch, size_t count)) { _ST_PRIVATE::stdio_format_writer w("", f); w.append_char((char)ch, count); } VP_END(void)
 #define OS_SHIMS(SFX, CT, TR) \
 VP_FN(void, vp_os_append_##SFX, (std::basic_ostream<CT, TR> *os, const char *d, size_t n)) { _ST_PRIVATE::ostream_format_writer<CT, TR> w("", *os); w.append(d, n); } VP_END(void) \
 VP_FN(void, vp_os_append_char_##SFX, (std::basic_ostream<CT, TR> *os, int ch, size_t count)) { _ST_PRIVATE::ostream_format_writer<CT, TR> w("", *os); w.append_char((char)ch, count); } VP_END(void) \
-VP_FN(void, vp_os_insert_##SFX, (std::basic_ostream<CT, TR> *os, const string *s)) { *os << *s; } VP_END(void)
+VP_FN(void, vp_os_insert_##SFX, (std::basic_ostream<CT, TR> *os, const string *s)) { *os << *s; } VP_END(void) \
+VP_FN(void, vp_is_extract_##SFX, (std::basic_istream<CT, TR> *is, string *s)) { *is >> *s; } VP_END(void)
 OS_SHIMS(c8, char, T8)
 OS_SHIMS(wc, wchar_t, TW)
 OS_SHIMS(c16, char16_t, T16)
@@ -38,6 +49,13 @@ VP_FN(size_t, vp_nat_sink_c8, (const char *d, size_t n, int ch, size_t count, co
 VP_FN(size_t, vp_nat_sink_wc, (const char *d, size_t n, int ch, size_t count, const string *ins, wchar_t *out, size_t cap)) { return nat_os<wchar_t, TW>(d, n, ch, count, ins, out, cap); } VP_END(size_t)
 VP_FN(size_t, vp_nat_sink_c16, (const char *d, size_t n, int ch, size_t count, const string *ins, char16_t *out, size_t cap)) { return nat_os<char16_t, T16>(d, n, ch, count, ins, out, cap); } VP_END(size_t)
 VP_FN(size_t, vp_nat_sink_c32, (const char *d, size_t n, int ch, size_t count, const string *ins, char32_t *out, size_t cap)) { return nat_os<char32_t, T32>(d, n, ch, count, ins, out, cap); } VP_END(size_t)
+// extraction: a real istringstream holding the token (char, wchar_t); token-yielding stream side (see the top of this file) for char16_t / char32_t
+template <class CT, class TR> static void nat_extract(const CT *tok, size_t n, string *out) { std::basic_istringstream<CT, TR> is(std::basic_string<CT, TR>(tok, n)); is >> *out; }
+template <class CT, class TR> static void nat_extract_nofacet(const CT *tok, size_t n, string *out) { std::basic_istream<CT, TR> is(nullptr); vp_nat_token = tok; vp_nat_token_n = n; is >> *out; }
+VP_FN(void, vp_nat_extract_c8, (const char *t, size_t n, string *out)) { nat_extract<char, T8>(t, n, out); } VP_END(void)
+VP_FN(void, vp_nat_extract_wc, (const wchar_t *t, size_t n, string *out)) { nat_extract<wchar_t, TW>(t, n, out); } VP_END(void)
+VP_FN(void, vp_nat_extract_c16, (const char16_t *t, size_t n, string *out)) { nat_extract_nofacet<char16_t, T16>(t, n, out); } VP_END(void)
+VP_FN(void, vp_nat_extract_c32, (const char32_t *t, size_t n, string *out)) { nat_extract_nofacet<char32_t, T32>(t, n, out); } VP_END(void)
 VP_FN(size_t, vp_nat_sink_stdio, (const char *d, size_t n, int ch, size_t count, char *out, size_t cap)) {
     char *mem = nullptr; size_t msz = 0; FILE *f = open_memstream(&mem, &msz);
     { _ST_PRIVATE::stdio_format_writer w("", f); w.append(d, n); w.append_char((char)ch, count); }
